@@ -72,6 +72,11 @@ def text(r, chars):
 
 def g_fmt(r):
     indent, width, chars = params(r)
+    if r.random() < 0.04:
+        # a screen as wide as the integer type allows (and deep indentation on wide screens)
+        indent = r.choice([0, 0, 1, 2, 11, 12, 20])
+        width = r.choice([2 ** 63 - 1, 2 ** 63 - 1, 2 ** 63 - 2, 2 ** 62, 2 ** 32, 2 ** 31 - 1, 8 * indent + 40, 8 * indent + 9])
+        chars = min(width - 8 * indent, 40)
     s = text(r, chars)
     assert not s.startswith(b" ") and b"\n" not in s
     return "fmt %d %d %s" % (indent, width, hexs(s))
